@@ -3,6 +3,7 @@
  */
 
 #include <ctype.h>
+#include <errno.h>
 #include <stdlib.h>
 #include <inttypes.h>
 #include <limits.h>
@@ -46,6 +47,7 @@ extern int _mpt_convert_int(void *val, size_t vlen, const char *src, int base)
 		return 0;
 	}
 	/* max size unsigend integer */
+	errno = 0;
 	tmp = strtoimax(src, &end, base);
 	if (end == src) {
 		/* accept space as empty string */
@@ -55,6 +57,10 @@ extern int _mpt_convert_int(void *val, size_t vlen, const char *src, int base)
 			}
 		}
 		return 0;
+	}
+	/* value exceeds maximum integer size */
+	if (errno == ERANGE) {
+		return MPT_ERROR(BadValue);
 	}
 	switch (vlen) {
 	  case sizeof(int8_t) :
@@ -109,6 +115,7 @@ extern int _mpt_convert_uint(void *val, size_t vlen, const char *src, int base)
 		return 0;
 	}
 	/* max size unsigend integer */
+	errno = 0;
 	tmp = strtoumax(src, &end, base);
 	if (end == src) {
 		/* accept space as empty string */
@@ -118,6 +125,10 @@ extern int _mpt_convert_uint(void *val, size_t vlen, const char *src, int base)
 			}
 		}
 		return 0;
+	}
+	/* value exceeds maximum integer size */
+	if (errno == ERANGE) {
+		return MPT_ERROR(BadValue);
 	}
 	switch (vlen) {
 	  case sizeof(int8_t) :
